@@ -20,8 +20,8 @@ Lemma step7_idle q a : todo7 q = [] ->
    | AHttp _ _ | APolicy (QNextTime _ _ _) _ | APolicy (QCheckAllowed _ _ _ _) _ | AEvent (EvProtocol _) => False
    | _ => True end) -> step7 q a = Some q.
 Proof.
-  intros H Ha. unfold step7. rewrite H.
-  destruct a as [ev|pq ans|w o|c ans|c|w|op ok|mt|id r]; try contradiction; try reflexivity.
+  intros H Ha.
+  destruct a as [ev|pq ans|w o|c ans|c|w|op ok|mt|id src|id r]; try contradiction; unfold step7; try rewrite H; try reflexivity.
   - destruct ev; try contradiction; reflexivity.
   - destruct pq; try contradiction; reflexivity.
 Qed.
@@ -35,6 +35,10 @@ Proof. intros c q H. apply step7_idle; [exact H|exact I]. Qed.
 Lemma ign_timer7 w : neutral step7 Inv7 (ATimer w).
 Proof. intros q H. apply step7_idle; [exact H|exact I]. Qed.
 
+Lemma ign_ctl7 : ign_ctl step7.
+Proof. split; intros; reflexivity. Qed.
+Ltac temit := first [apply triple_emit | apply (T_yield step7 _ _ _ ign_ctl7) | (unfold yield_state; apply (T_yield step7 _ _ _ ign_ctl7))].
+
 Lemma Jn {A} (m0 : sm) (m : M A) : nM m -> T (J m0) m (fun _ => J m0).
 Proof. intro H. apply (H (J m0)). apply J_inv. Qed.
 Ltac kn H := eapply triple_bind; [apply (Jn _ _ H)|intro].
@@ -45,8 +49,14 @@ Lemma nM_emit_idle a :
    | AHttp _ _ | APolicy (QNextTime _ _ _) _ | APolicy (QCheckAllowed _ _ _ _) _ | AEvent (EvProtocol _) => False
    | _ => True end) -> nM (emit a).
 Proof. intro Ha. apply neutralM_emit. intros q H. apply step7_idle; assumption. Qed.
+Lemma nM_yield_idle ev :
+  (match ev with EvProtocol _ => False | _ => True end) -> nM (yield_ ev).
+Proof.
+  intro H. apply neutralM_yield; [apply ign_ctl7|]. intros q Hq. apply step7_idle; [exact Hq|].
+  destruct ev; try contradiction; exact I.
+Qed.
 Lemma nM_yield_state s : nM (yield_state s).
-Proof. apply nM_emit_idle. exact I. Qed.
+Proof. apply nM_yield_idle. exact I. Qed.
 
 (* ---------- do_omaha_request ---------- *)
 Lemma oZ_eqb_refl x : oZ_eqb x x = true.
@@ -95,12 +105,12 @@ Proof.
   intro uri. kna (neutralM_silent step7 Inv7 _ silent_pop_http) as o.
   destruct o as [k|status ra authentic bd].
   - eapply triple_bind with (R := fun _ => J m).
-    { apply triple_emit. intros q Hq. exists q. split; [|exact Hq]. unfold step7. destruct Hq as (-> & _). reflexivity. }
+    { temit. intros q Hq. exists q. split; [|exact Hq]. unfold step7. destruct Hq as (-> & _). reflexivity. }
     intro. apply triple_ret. auto.
   - destruct (match m_cup m with Some _ => negb authentic | None => false end) eqn:Ef.
     + (* forged: the monitor sees an unauthenticated response and changes nothing *)
       eapply triple_bind with (R := fun _ => J m).
-      { apply triple_emit. intros q Hq. exists q. split; [|exact Hq]. destruct Hq as (Ht & Hp & Hc).
+      { temit. intros q Hq. exists q. split; [|exact Hq]. destruct Hq as (Ht & Hp & Hc).
         unfold step7. rewrite Ht, Hc. unfold cupb. destruct (m_cup m); [|discriminate].
         cbn [negb orb]. destruct authentic; [discriminate|reflexivity]. }
       intro. apply triple_ret. auto.
@@ -110,7 +120,7 @@ Proof.
         cbn [negb orb]. destruct authentic; [reflexivity|discriminate]. }
       destruct (oZ_eqb (ps_poll (m_ps m)) (parse_retry_after ra)) eqn:Eq.
       * eapply triple_bind with (R := fun _ => J m).
-        { apply triple_emit. intros q Hq. exists q. split; [|exact Hq].
+        { temit. intros q Hq. exists q. split; [|exact Hq].
           pose proof (Hauth q Hq) as Ha. destruct Hq as (Ht & Hp & Hc).
           unfold step7. rewrite Ht, Ha. cbv zeta. rewrite Hp.
           match goal with |- (if ?c then _ else _) = _ => assert (Hx : c = true) by exact Eq; rewrite Hx end. reflexivity. }
@@ -119,7 +129,7 @@ Proof.
       * set (p' := parse_retry_after ra).
         eapply triple_bind with
           (R := fun _ q => q = {| cup7 := cupb m; p7 := p'; todo7 := [ObProto p'; ObStore; ObPollStore p'; ObStore; ObCommit] |}).
-        { apply triple_emit. intros q Hq. eexists. split; [|reflexivity].
+        { temit. intros q Hq. eexists. split; [|reflexivity].
           pose proof (Hauth q Hq) as Ha. destruct Hq as (Ht & Hp & Hc).
           unfold step7. rewrite Ht, Ha. cbv zeta. rewrite Hp.
           match goal with |- (if ?c then _ else _) = _ => assert (Hx : c = false) by exact Eq; rewrite Hx end.
@@ -127,7 +137,7 @@ Proof.
         intro.
         eapply triple_bind with (R := fun m' q => q = {| cup7 := cupb m; p7 := p'; todo7 := [] |} /\ m' = with_ps m (set_poll (m_ps m) p')).
         { eapply triple_bind with (R := fun _ q => q = {| cup7 := cupb m; p7 := p'; todo7 := [ObStore; ObPollStore p'; ObStore; ObCommit] |}).
-          { apply triple_emit. intros q ->. eexists. split; [|reflexivity].
+          { temit. intros q ->. eexists. split; [|reflexivity].
             unfold step7. cbn [todo7 with_ps m_ps set_poll ps_poll]. rewrite oZ_eqb_refl. reflexivity. }
           intro. eapply triple_bind; [apply (T_ctx_persist_todo _ _ (cupb m) p' [ObCommit]); reflexivity|]. intro.
           eapply triple_bind with (R := fun _ q => q = {| cup7 := cupb m; p7 := p'; todo7 := [] |}).
@@ -195,7 +205,7 @@ Proof.
   kn (neutralM_report step7 Inv7 (MRequestsPerCheck attempts (match res with inr _ => true | inl _ => false end)) ign_metric7).
   destruct res as [e|[d|]].
   - rj.
-  - kn (nM_emit_idle (AEvent (EvServerResponse d)) I).
+  - kn (nM_yield_idle (EvServerResponse d) I).
     destruct (filter uc_ok (d_apps d)) as [|wu0 wur] eqn:Hwu.
     + kn (nM_yield_state NoUpdateAvailable). rj.
     + kna (neutralM_silent step7 Inv7 _ silent_pop_plan) as pl.
@@ -213,7 +223,7 @@ Proof.
         kna (neutralM_silent step7 Inv7 _ silent_pop_perform) as pa.
         match goal with |- T _ (bind (emit ?a) _) _ => kn (nM_emit_idle a I) end.
         kn (neutralM_iterM step7 Inv7 (fun bits => yield_ (EvProgress bits)) (pa_progress pa)
-              (fun bits => nM_emit_idle (AEvent (EvProgress bits)) I)).
+              (fun bits => nM_yield_idle (EvProgress bits) I)).
         kna (neutralM_now step7 Inv7 ign_clock7) as t1.
         eapply triple_bind with (R := fun _ => J m2).
         { match goal with |- T _ (if ?c then _ else _) _ => destruct c end.
@@ -240,7 +250,7 @@ Proof.
            kna (neutralM_silent step7 Inv7 _ silent_pop_reboot_needed) as rn.
            match goal with |- T _ (bind (emit ?a) _) _ => kn (nM_emit_idle a I) end. rj.
         -- kn (neutralM_iterM step7 Inv7 (fun _ : unit => yield_ EvInstallerError) (repeat tt (Datatypes.S nerr))
-                 (fun _ => nM_emit_idle (AEvent EvInstallerError) I)).
+                 (fun _ => nM_yield_idle EvInstallerError I)).
            kn (nM_yield_state InstallationError). rj.
       * eapply triple_bind; [apply T_report_event|]. intro.
         kn (nM_yield_state InstallationDeferredByPolicy). rj.
@@ -271,10 +281,10 @@ Proof.
       { destruct (install_success rs); [apply (Jn _ _ (neutralM_report_attempts_install step7 Inv7 _ ign_store7 ign_metric7))|rj]. }
       intro. rext. }
   intros [[m2 result] rb]; cbn [fst].
-  kn (nM_emit_idle (AEvent (EvSchedule (m_sched m2))) I).
+  kn (nM_yield_idle (EvSchedule (m_sched m2)) I).
   eapply triple_bind with (R := fun _ => J m2).
-  { apply triple_emit. intros q Hq. exists q. split; [|exact Hq]. eapply step7_shown; [exact Hq|reflexivity]. }
-  intro. kn (nM_emit_idle (AEvent (EvResult result)) I).
+  { temit. intros q Hq. exists q. split; [|exact Hq]. eapply step7_shown; [exact Hq|reflexivity]. }
+  intro. kn (nM_yield_idle (EvResult result) I).
   kn (neutralM_persist_data step7 Inv7 m2 ign_store7). rj.
 Qed.
 
@@ -282,9 +292,9 @@ Lemma T_update_next m : T (J m) (update_next_update_time m) (fun r => J (fst r))
 Proof.
   unfold update_next_update_time. kna (neutralM_silent step7 Inv7 _ silent_pop_next_time) as t.
   eapply triple_bind with (R := fun _ => J m).
-  { apply triple_emit. intros q Hq. exists q. split; [|exact Hq]. destruct Hq as (Ht & Hp & _).
+  { temit. intros q Hq. exists q. split; [|exact Hq]. destruct Hq as (Ht & Hp & _).
     unfold step7. rewrite Ht, Hp, oZ_eqb_refl. reflexivity. }
-  intro. match goal with |- T _ (bind (yield_ ?ev) _) _ => kn (nM_emit_idle (AEvent ev) I) end. rext.
+  intro. match goal with |- T _ (bind (yield_ ?ev) _) _ => kn (nM_yield_idle ev I) end. rext.
 Qed.
 
 Lemma T_ping m : T (J m) (ping_omaha m) J.
@@ -298,7 +308,7 @@ Proof.
   { kn (neutralM_persist_data step7 Inv7 (with_ps m1 (set_fails (m_ps m1) (sat_inc_u32 (ps_fails (m_ps m1))))) ign_store7). rext. }
   destruct res as [er|[d|]]; [exact Hfail| |exact Hfail].
   kna (neutralM_now step7 Inv7 ign_clock7) as n.
-  match goal with |- T _ (bind (yield_ ?ev) _) _ => kn (nM_emit_idle (AEvent ev) I) end.
+  match goal with |- T _ (bind (yield_ ?ev) _) _ => kn (nM_yield_idle ev I) end.
   match goal with |- T _ (bind (persist_data ?x) _) _ => kn (neutralM_persist_data step7 Inv7 x ign_store7) end. rext.
 Qed.
 
@@ -308,10 +318,18 @@ Proof.
   kn (nM_emit_idle (APolicy (QRebootAllowed src) (PBool b)) I). rj.
 Qed.
 
+Lemma T_handle_in_reboot id sc m : T (J m) (handle_in_reboot id sc) (fun _ => J m).
+Proof.
+  unfold handle_in_reboot. kn (nM_emit_idle (AReply id AlreadyRunning) I).
+  destruct sc; [apply T_ask_reboot|rj].
+Qed.
+
 Lemma T_reboot_loop fuel : forall src pending m, T (J m) (reboot_loop fuel src pending m) J.
 Proof.
   induction fuel as [|f IH]; intros src pending m; cbn [reboot_loop]; [apply triple_halt|].
-  kna (neutralM_silent step7 Inv7 _ silent_pop_stim) as s. destruct s as [i|sc].
+  kna (neutralM_silent step7 Inv7 _ (silent_pop_queued)) as qd. destruct qd as [[id sc]|].
+  { eapply triple_bind; [apply T_handle_in_reboot|]. intros [|]; [rj|apply IH]. }
+  kna (neutralM_silent step7 Inv7 _ silent_pop_stim) as s. destruct s as [i|sc|].
   - assert (Hping : T (J m)
               (m1 <- ping_omaha m;; mt <- update_next_update_time m1;;
                (let '(m2, t) := mt in roles <- make_wait t;; reboot_loop f src (remove_nth i pending ++ roles) m2)) J).
@@ -325,9 +343,9 @@ Proof.
       kn (neutralM_emit step7 Inv7 _ (ign_timer7 (WFor REBOOT_INTERVAL_NS))). apply IH.
     + apply IH.
   - kna (neutralM_silent step7 Inv7 _ silent_next_ctl) as id.
-    kn (nM_emit_idle (AReply id AlreadyRunning) I).
-    destruct sc; [|apply IH].
-    eapply triple_bind; [apply T_ask_reboot|]. intros [|]; [rj|apply IH].
+    kn (nM_emit_idle (ARequest id sc) I).
+    eapply triple_bind; [apply T_handle_in_reboot|]. intros [|]; [rj|apply IH].
+  - apply IH.
 Qed.
 
 Lemma T_wait_for_reboot fuel src m : T (J m) (wait_for_reboot fuel src m) J.
@@ -355,10 +373,10 @@ Proof.
     kn (neutralM_st_write step7 Inv7 SCommit ign_store7). rj. }
   intro sr'. eapply triple_bind; [apply T_update_next|]. intros [m1 t]; cbn [fst].
   kna (neutralM_make_wait step7 Inv7 t ign_timer7) as roles.
-  kna (neutralM_silent step7 Inv7 _ (silent_do_outer_select roles)) as sel.
+  eapply triple_bind with (R := fun _ => J m1); [apply (T_do_outer_select step7 roles (J m1) ign_ctl7)|]. intro sel.
   kna (neutralM_silent step7 Inv7 _ silent_pop_allowed) as dec.
   eapply triple_bind with (R := fun _ => J m1).
-  { apply triple_emit. intros q Hq. exists q. split; [|exact Hq]. destruct Hq as (Ht & Hp & _).
+  { temit. intros q Hq. exists q. split; [|exact Hq]. destruct Hq as (Ht & Hp & _).
     unfold step7. rewrite Ht, Hp, oZ_eqb_refl. reflexivity. }
   intro.
   assert (Hneg : T (J m1) (match sel with Some (_, id) => emit (AReply id Throttled) | None => ret tt end;;; ret (m1, sr'))
@@ -367,16 +385,22 @@ Proof.
     destruct sel as [[s id]|]; [apply (Jn _ _ (nM_emit_idle (AReply id Throttled) I))|rj]. }
   assert (Hpos : forall p, T (J m1)
             (match sel with Some (_, id) => emit (AReply id Started) | None => ret tt end;;;
+             enter_check;;;
              r <- start_update_check fuel p m1;;
+             set_incheck false;;;
+             upg <- take_upgrade;;
              (let '(m0, rb) := r in
               m2 <- match rb with
-                    | RebootNeeded _ => yield_state WaitingForReboot;;; wait_for_reboot fuel match sel with Some (s, _) => s | None => ScheduledTask end m0
+                    | RebootNeeded _ => yield_state WaitingForReboot;;; wait_for_reboot fuel (if upg then OnDemand else match sel with Some (s, _) => s | None => ScheduledTask end) m0
                     | RebootNotNeeded => ret m0
                     end;;
               yield_state Idle;;; ret (m2, sr'))) (fun r => J (fst r))).
   { intro p. eapply triple_bind with (R := fun _ => J m1).
     { destruct sel as [[s id]|]; [apply (Jn _ _ (nM_emit_idle (AReply id Started) I))|rj]. }
-    intro. eapply triple_bind; [apply T_start|]. intros [m2 rb]; cbn [fst].
+    intro. eapply triple_bind with (R := fun _ => J m1); [apply (T_enter_check step7 (J m1) ign_ctl7)|]. intro.
+    eapply triple_bind; [apply T_start|]. intros [m2 rb]; cbn [fst].
+    kn (neutralM_silent step7 Inv7 _ (silent_set_incheck false)).
+    kna (neutralM_silent step7 Inv7 _ silent_take_upgrade) as upg.
     eapply triple_bind with (R := J).
     { destruct rb as [plan|]; [|rj]. kn (nM_yield_state WaitingForReboot). apply T_wait_for_reboot. }
     intro m3. kn (nM_yield_state Idle). rj. }
@@ -408,11 +432,11 @@ Proof.
   assert (HJ : J m (init7 cup (e_store e))).
   { unfold J, init7, cupb, m, build. cbn [todo7 p7 cup7]. destruct (ctx_load (pend (e_store e))) as [sc ps]. cbn. auto. }
   destruct ep.
-  - destruct (T_run (Datatypes.S (length (e_stim e))) (4 + length (e_stim e)) m (init7 cup (e_store e)) e (init7 cup (e_store e))) as (q' & Hq' & _).
+  - destruct (T_run (Datatypes.S (length (e_stim e) + length (c_inject (e_cs e)))) (4 + length (e_stim e) + length (c_inject (e_cs e))) m (init7 cup (e_store e)) e (init7 cup (e_store e))) as (q' & Hq' & _).
     + unfold mst. rewrite Ht. reflexivity.
     + exact HJ.
     + destruct (run _ _ m e) as [r e'] eqn:E. cbn [snd] in Hq'. unfold mst in Hq'. rewrite Hq'. reflexivity.
-  - destruct (T_oneshot (4 + length (e_stim e)) m (init7 cup (e_store e)) e (init7 cup (e_store e))) as (q' & Hq' & _).
+  - destruct (T_oneshot (4 + length (e_stim e) + length (c_inject (e_cs e))) m (init7 cup (e_store e)) e (init7 cup (e_store e))) as (q' & Hq' & _).
     + unfold mst. rewrite Ht. reflexivity.
     + exact HJ.
     + destruct (oneshot _ m e) as [r e'] eqn:E. cbn [snd] in Hq'. unfold mst in Hq'. rewrite Hq'. reflexivity.
